@@ -85,6 +85,8 @@ type vRevClientStream struct { // grpc.BidiStreamingClient[ServerToClient, Clien
 	sent       []*tunnelpb.ServerToClient
 	peerEnded  bool
 	hungUp     bool
+	late       []*tunnelpb.ClientToServer // frames that were already in transit when this side half-closed
+	latePos    int
 }
 
 func (s *vRevClientStream) Header() (metadata.MD, error) { return s.hdr, s.hdrErr }
@@ -117,6 +119,10 @@ func (s *vRevClientStream) Recv() (*tunnelpb.ClientToServer, error) {
 	if s.hold {
 		select {
 		case <-s.hangup:
+			if s.latePos < len(s.late) {
+				s.latePos++
+				return s.late[s.latePos-1], nil
+			}
 			return nil, io.EOF
 		case <-s.ctx.Done():
 			return nil, status.FromContextError(s.ctx.Err()).Err()
@@ -541,4 +547,39 @@ func verifH_ForwardEntry() {
 	} else {
 		verifAssert(len(hl.calls) == 1, "C08.fwd-rpc-dispatched")
 	}
+}
+
+// S-STOP-INFLIGHT (C04 C10 C15): Stop (optionally after GracefulStop) while a
+// Serve call is running and a new_stream frame is already in transit: Stop must
+// return (after Serve has), and the late RPC must be refused, not dispatched.
+func verifH_StopInFlight() {
+	str := &vRevClientStream{hangup: make(chan struct{}), hold: true}
+	str.late = []*tunnelpb.ClientToServer{{StreamId: 1, Frame: &tunnelpb.ClientToServer_NewStream{
+		NewStream: &tunnelpb.NewStream{MethodName: "a/s", ProtocolRevision: tunnelpb.ProtocolRevision_REVISION_ONE, InitialWindowSize: 10}}}}
+	stub := &vStub{stream: str}
+	hl := &vHandlerLog{}
+	srv := NewReverseTunnelServer(stub)
+	srv.handlers = vHandlers(hl)
+	var serveErr error
+	served, started := false, false
+	verifGo("serve", func() {
+		started, serveErr = srv.Serve(context.Background())
+		served = true
+	})
+	verifDrain() // Serve is now parked in Recv
+	graceful := verifBool("gracefulFirst")
+	if graceful {
+		verifGo("graceful", func() { srv.GracefulStop() })
+		verifDrain()
+	}
+	srv.Stop()
+	// reaching this point: Stop returned (a hang is reported as DEADLOCK)
+	verifAssert(served, "C04+C10.stop-returns-only-after-serve-returned")
+	verifDrain()
+	verifAssert(started && serveErr == nil, "C04.serve-ends-cleanly-when-stopped")
+	verifAssert(len(hl.calls) == 0, "C10.rpc-arriving-after-stop-is-not-dispatched")
+	verifAssert(str.closeSends >= 1, "C04.stop-half-closes-the-tunnel")
+	verifAssert(verifWaitGroupCount(&srv.wg) == 0, "C04+C10.stop-wait-group-balanced")
+	verifAssert(!verifMutexHeld(&srv.mu), "C15.reverse-server-mutex-released")
+	verifAssert(verifLiveGoroutines() == 0, "C14.stop-in-flight-no-goroutine-left")
 }
